@@ -6,8 +6,10 @@ import (
 	"fmt"
 	"os"
 	"testing"
-	"testing/synctest"
-	"time"
+
+	"github.com/pion/dtls/v3/pkg/protocol/extension"
+	extension13 "github.com/pion/dtls/v3/pkg/protocol/extension/dtls13"
+	"github.com/pion/dtls/v3/pkg/protocol/handshake"
 )
 
 // TestVF_Debug: ad-hoc scenario runner used while triaging (not registered as a check).
@@ -15,30 +17,20 @@ func TestVF_Debug(t *testing.T) {
 	if os.Getenv("VERIF_DEBUG") == "" {
 		t.Skip("debug only")
 	}
-	vfGetPKI()
-	synctest.Test(t, func(t *testing.T) {
-		cfg := vfBaseCfg(vfSuiteByName("ECDSA-GCM128"), "ecdsa")
-		co, so := cfg.Options(nil, nil)
-		n := vfNewNet()
-		p, err := vfNewPair(n, co, so)
-		if err != nil {
-			t.Fatal(err)
-		}
-		ce, se := p.Handshake(time.Minute)
-		fmt.Println("handshake", ce, se)
-		p.C.StartPump()
-		p.S.StartPump()
-		fmt.Println("rt0:", vfRoundTrip(p, "a", time.Minute))
-		for e := 1; e <= 65535; e++ {
-			rec := []byte{20, 0xfe, 0xfd, byte(e >> 8), byte(e), 0, 0, 0, 1, byte(e >> 8), byte(e), 0, 1, 1}
-			n.Deliver(vfServerAddr, rec, vfAddr(vfClientAddr))
-			if e%1000 == 0 {
-				synctest.Wait()
-			}
-		}
-		synctest.Wait()
-		fmt.Println("server remote epoch:", vfCommon(p.S.Conn).RemoteEpoch())
-		fmt.Println("rt1:", vfRoundTrip(p, "b", time.Minute))
-		p.Close()
-	})
+	cr := &handshake.MessageCertificateRequest{}
+	fmt.Println("certreq odd:", cr.Unmarshal([]byte{1, 64, 0, 3, 4, 3, 4, 0, 0}), cr.SignatureHashAlgorithms)
+	sg := &extension.SupportedGroups{}
+	fmt.Println("groups odd:", sg.UnmarshalData([]byte{0, 3, 0, 29, 0}), sg)
+	sa := &extension.SignatureAlgorithms{}
+	fmt.Println("sigalgs odd:", sa.UnmarshalData([]byte{0, 3, 4, 3, 4}), sa)
+	ca := &extension.CertificateSignatureAlgorithms{}
+	fmt.Println("certsigalgs odd:", ca.UnmarshalData([]byte{0, 3, 4, 3, 4}), ca)
+	us := &extension.SRTPOffer{}
+	fmt.Println("srtp odd:", us.UnmarshalData([]byte{0, 3, 0, 1, 0, 0}), us)
+	ov := &extension13.OfferedVersions{}
+	fmt.Println("versions odd:", ov.UnmarshalData([]byte{3, 0xfe, 0xfc, 0xfe}), ov)
+	ch := &handshake.MessageClientHello{}
+	raw := append([]byte{0xfe, 0xfd}, make([]byte, 32)...)
+	raw = append(raw, 0, 0, 0, 3, 0xc0, 0x2b, 0xc0, 1, 0)
+	fmt.Println("clienthello odd suites:", ch.Unmarshal(raw), ch.CipherSuiteIDs)
 }
